@@ -27,6 +27,7 @@ def gen_case(rng, tier):
     prof = B.default_profile(rng)
     prof["w_op"] = rng.choice([0, 0, 1])
     prof["views"] = rng.random() < 0.3  # dependencies through subviews of one allocation
+    prof["streams"] = rng.random() < 0.15  # streaming regions: XDMA extension kernels on the DM core, snax_alu on the compute core
     prof["multiblock"] = rng.random() < 0.1  # several blocks (cf.cond_br): a barrier in one block does not cover the next
     ast = B.BufGen(rng, prof).program()
     envs = [B.gen_env(rng, zero_trips=prof["zero_trips"]) for _ in range(K_ENVS[tier])]
